@@ -115,6 +115,32 @@ reg(
     "temporary directories per case.",
 )
 
+reg(
+    "C08",
+    "Exhaustive enumeration of the alias registry against a hand-written alias->class table, plus Hypothesis-generated class forests (shadowing model), mappings and nested JSON configuration twins (bit-identical features)",
+    "Every (family, alias, access path) triple resolves to the documented class; unknown strings raise ValueError; last-registered-wins on generated forests under a throw-away root; alias_factory_subclass_from_arg contract on dict/OrderedDict/MappingProxyType; JSON round-tripped nested configurations compute bit-identical features to explicitly constructed twins.",
+    "the expected alias table is transcribed from the documentation; forests are generated only in shapes where 'registered last' is unambiguous.",
+)
+reg(
+    "C10",
+    "Fault enumeration: fork-based kill/interrupt injection at every (utterance, phase, kind) crash point of signals-to-torch-feat-dir, invariants after the crash and after resume against an uninterrupted reference run; Hypothesis-generated crash histories and worker counts",
+    "Complete crash-point grid (k x {before_save, mid_write, after_save, after_manifest} x {hard, soft}) for 1..5 utterances x workers {0,2} in the thorough tier (1 and 3 utterances in quick), generated single crashes, histories of 2-3 successive crashes, and worker-count independence with drawn per-item delays; dither > 0 with a fixed --seed throughout. Found and now guards F10a/F10b.",
+    "hard kill = os._exit at Python-level points (a kill inside a write() system call cannot be injected); worker schedules perturbed, not enumerated.",
+    category="fault_enumeration",
+)
+reg(
+    "C18",
+    "Hypothesis property-based testing: explicit float64 recurrence oracle for Preemphasize, metamorphic and statistical relations for Dither",
+    "All lengths 0..64 x float/int dtypes x coefficients x in_place x memory layouts; dither: noise independent of the signal, linear in coeff, identity at 0, reproducible under numpy.random.seed, 6-sigma moments on 2e5 draws; inputs untouched unless in_place.",
+    "int64 beyond 2^53 judged against the documented float64 intermediate; statistics deterministic per VERIF_SEED.",
+)
+reg(
+    "C20",
+    "Hypothesis property-based testing plus exhaustive width grids against own closed forms (windows), a direct-summation inverse DFT (circshift_fourier) and 50-digit mpmath (gauss_quant)",
+    "Every window class for all widths 0..64 (thorough 0..512) and generated widths to 4096; circshift over segment/start/dft_size (default None, fitting, wrapping)/shift/dtype/copy; gauss_quant accuracy, monotonicity and affinity across (1e-20, 1-1e-16); hertz/angular round trips. Found and now guards F20.",
+    "widths 0 and 1 judged for length and sign only (degenerate area); GammaWindow order 1 judged as a reversed exponential only.",
+)
+
 NOT_APPLICABLE = {}
 
 
